@@ -32,7 +32,7 @@ fn settings_with(eol: &str, exec: &str) -> UserSettings {
 
 pub fn run(cfg: &Cfg, out: &mut Out) {
     let mut r = cfg.rng(24);
-    let workspaces = cfg.n(70, 400);
+    let workspaces = cfg.n(100, 500);
     for _ in 0..workspaces {
         let mut env = Env::new();
         let conflicts = r.chance(2, 3);
